@@ -244,7 +244,7 @@ def run(chk):
 def bundled_paths(chk, tmp):
     """The bundled definition files through file / iterable / cold cache / warm cache: identical answers for every unit."""
     import pint
-    src = "/repo/pint/default_en.txt"
+    src = reader.PINT_ROOT + "/pint/default_en.txt"
     lines = reader.read_lines(src)           # imports expanded, comments stripped: the same content as an iterable of lines
     cache = os.path.join(tmp, "bundled_cache")
     regs = {"file": pint.UnitRegistry(src, non_int_type=F),
